@@ -15,6 +15,9 @@ CHECKS = {
  'C09': dict(
    text='For every wire graph of the bound (all set partitions of the labelled ends of up to 3, thorough 4, wires; with and without ground) and ALL complex pulse currents, z3 decides that each printed junction-end current is the total through that end, that printed inflows sum to zero and that E lines sit exactly at free ends. One known finding (first-end star) is recorded.',
    design='DESIGN.md 3 (C09)'),
+ 'C10': dict(
+   text='For all complex pulse currents in a box (three scales in the thorough tier), all positive powers, requested powers and distances and a symbolic azimuth, z3 decides on catalogue geometries (free space and ideal ground) that the far field is the MININEC radiation sum written from pulse geometry (linear real arithmetic), that dBi and V/m tables describe the same field, scale with sqrt(P_req/P)/r, repeat after 360 degrees and rotate rigidly at the zenith.',
+   design='DESIGN.md 3 (C10)'),
  'C12': dict(
    text='Wire end coordinates are solver variables (abstract length, generic position): for every feasible coincidence pattern of the ends of up to 3 (thorough 4) wires with 1..3 segments, with and without ground, count and numbering are compared with the topology formula and the placement of every pulse on its two segments is decided by z3 for all coordinates of the class; the 1/1000 matching tolerance is decided with the exact norm on a two-wire frame.',
    design='DESIGN.md 3 (C12), 2.4'),
